@@ -755,6 +755,71 @@ def run(ctx):
 
     ctx.section(_sec_cli)
 
+    def _sec_fnkey():
+        # ------------------------------------------------------------------ fnkey
+        # "The operations present are exactly those requested": every handler the route templates generate is called by
+        # its CRUD verb only (`def create():`, `def read({id}):`, `def destroy({id}):` — no model in the name), so one
+        # routes file holds as many `create`s as it has models and apps. A mapping keyed by the handler's NAME therefore
+        # keeps one handler per verb: the operations of every other model (or of the other app sharing the file) are
+        # read off the wrong function or vanish. The readers of a routes module must go by the node, not by its name.
+        import re as _re
+
+        names = set()
+        for var in ("create_route_variants", "read_route_variants", "delete_route_variants"):
+            mv = index.module_var("cdd.routes.emit.bottle_constants_utils." + var)
+            ctx.need(mv is not None, "the route template table {} vanished".format(var))
+            tpls = [c.value for st in mv[1] for c in ast.walk(st) if isinstance(c, ast.Constant) and isinstance(c.value, str) and "def " in c.value]
+            ctx.need(tpls, "no route template text in {}".format(var))
+            for tpl in tpls:
+                names.update(_re.findall(r"^def\s+([^\s(]+)\(", tpl, _re.M))
+        ctx.need(names, "no handler definition found in the route templates")
+        ctx.count("handler_names_in_templates", len(names))
+        if any("{" in n_ for n_ in names):
+            ctx.note("C16.fnkey: handler names are parametrised by the templates ({}); names may be unique, rule not applicable".format(sorted(names)))
+            return
+
+        def findings(fn_node, resolve):
+            out = []
+            for n in ast.walk(fn_node):
+                comps = []
+                if isinstance(n, ast.DictComp):
+                    comps.append((n.key, n.generators))
+                if isinstance(n, ast.Call) and norm(n.func) in ("dict", "OrderedDict") and n.args and isinstance(n.args[0], (ast.GeneratorExp, ast.ListComp)) and isinstance(n.args[0].elt, ast.Tuple) and len(n.args[0].elt.elts) == 2:
+                    comps.append((n.args[0].elt.elts[0], n.args[0].generators))
+                for key, gens in comps:
+                    for g_ in gens:
+                        it = g_.iter
+                        # (a) `{node.name: ... for node in <module>.body ...}`
+                        if isinstance(key, ast.Attribute) and key.attr == "name" and isinstance(key.value, ast.Name) and isinstance(g_.target, ast.Name) and g_.target.id == key.value.id and any(isinstance(x, ast.Attribute) and x.attr == "body" for x in ast.walk(it)):
+                            out.append((n, "the name of a top-level function of the routes module"))
+                        # (b) `{func_name: ... for func_name, app, path, method in get_route_meta(mod)}`
+                        if isinstance(key, ast.Name) and isinstance(g_.target, ast.Tuple) and g_.target.elts and isinstance(g_.target.elts[0], ast.Name) and g_.target.elts[0].id == key.id:
+                            if any(isinstance(x, ast.Call) and resolve(x) == "cdd.routes.parse.bottle_utils.get_route_meta" for x in ast.walk(it)):
+                                out.append((n, "the handler name get_route_meta reports"))
+            return out
+
+        probe = ast.parse("def f(mod):\n    fs = {node.name: node for node in mod.body if isinstance(node, FunctionDef)}\n    return fs\n").body[0]
+        ctx.need(len(findings(probe, lambda c: None)) == 1, "the name-keyed-mapping recogniser disagrees with its own example")
+        n_f = 0
+        for g in index.nontest_funcs():
+            if not (g.mod.name.startswith("cdd.compound.openapi") or g.mod.name.startswith("cdd.routes.parse")) or g.outer is not None:
+                continue
+            n_f += 1
+            for n, what in findings(g.node, lambda c, g=g: index.callee(g.mod, c, g)):
+                ctx.ob(
+                    "C16.fnkey",
+                    g,
+                    n,
+                    False,
+                    "a mapping keyed by {}: the route templates call every handler by its CRUD verb only ({}), so a routes file with two "
+                    "models (or two apps) has several functions of each name and the mapping keeps one of them — the other model's "
+                    "operations are read off the wrong handler or are missing from the document".format(what, ", ".join(sorted(names))),
+                )
+        ctx.count("functions_scanned_for_name_keyed_route_mappings", n_f)
+        ctx.floor("readers of routes modules scanned", n_f, 5)
+
+    ctx.section(_sec_fnkey)
+
     def _sec_group():
         # -------------------------------------------------------------- group
         # openapi_bulk merges the handlers of one path with itertools.groupby and keeps the groups in a dict. groupby
